@@ -406,6 +406,6 @@ def units(tier):
     for mth, ys, d, kd in dims:
         us.append(("dims:%s[y%s,dim=%d,keepdim=%s]" % (mth, list(ys), d, kd), lambda mth=mth, ys=ys, d=d, kd=kd: unit_dims(mth, ys, d, kd)))
     us.append(("rejections", unit_rejections))
-    for mth, bc in (("trapz", None), ("simpson", None)):
-        us.append(("any_size[%s]" % mth, lambda mth=mth: unit_any_size(mth)))
+    for mth, bc in (("trapz", None), ("simpson", None), ("cspline", None), ("cspline", "clamped"), ("cspline", "not-a-knot"), ("cspline", "periodic")):
+        us.append(("any_size[%s%s]" % (mth, "/" + bc if bc else ""), lambda mth=mth, bc=bc: unit_any_size(mth, bc)))
     return us
